@@ -35,6 +35,7 @@ type mop struct {
 	Format string // buffer format constant name for nested strings
 	Type   string
 	Text   string
+	Cond   string // coq term of type mcond when the operation stands inside a recognised `if`
 }
 
 type uop struct {
@@ -46,6 +47,7 @@ type uop struct {
 	Len    string // length expression (coq term of type lenexp)
 	Type   string
 	Text   string
+	Cond   string // coq term of type ucond when the operation stands inside `if c.GetParameters().WordCount == K`
 }
 
 type smbCmd struct {
@@ -154,8 +156,66 @@ func streamOfVar(v string) string {
 func (x *smbCtx) marshalBody(body *ast.BlockStmt) {
 	x.vars = map[string][]mop{}
 	x.formats = map[string]string{}
-	stmts := body.List
 	blocks := []string{}
+	x.marshalStmts(body.List, &blocks, false)
+	x.cmd.PrmFirst = len(blocks) == 2 && blocks[0] == "P" && blocks[1] == "D"
+	if !x.cmd.PrmFirst {
+		x.cmd.Opaque = append(x.cmd.Opaque, fmt.Sprintf("Marshal: output is not parameter block then data block (%v)", blocks))
+	}
+}
+
+// wordCountEq recognises  c.GetParameters().WordCount == K
+func (x *smbCtx) wordCountEq(e ast.Expr) (string, bool) {
+	be, ok := unparen(e).(*ast.BinaryExpr)
+	if !ok || be.Op != token.EQL || src(x.lp.fset, be.X) != x.recv+".GetParameters().WordCount" {
+		return "", false
+	}
+	if v, ok := x.lp.evalConst(be.Y); ok {
+		if sv, ok := intString(v); ok {
+			return sv, true
+		}
+	}
+	return "", false
+}
+
+// marshalCond recognises the conditions under which optional trailing fields are emitted
+func (x *smbCtx) marshalCond(e ast.Expr) (string, bool) {
+	if k, ok := x.wordCountEq(e); ok {
+		return "(MCWcEq " + k + ")", true
+	}
+	be, ok := unparen(e).(*ast.BinaryExpr)
+	if !ok || be.Op != token.NEQ {
+		return "", false
+	}
+	f, ok := x.fieldOf(be.X)
+	if !ok || src(x.lp.fset, be.X) != x.recv+"."+f {
+		return "", false
+	}
+	if v, ok := x.lp.evalConst(be.Y); ok {
+		if sv, ok := intString(v); ok && sv == "0" {
+			return "(MCNonZero " + coqStr(f) + ")", true
+		}
+	}
+	if cl, ok := be.Y.(*ast.CompositeLit); ok {
+		if _, isArr := cl.Type.(*ast.ArrayType); isArr {
+			for _, el := range cl.Elts {
+				v, ok := x.lp.evalConst(el)
+				if !ok {
+					return "", false
+				}
+				if sv, ok := intString(v); !ok || sv != "0" {
+					return "", false
+				}
+			}
+			return "(MCArrNonZero " + coqStr(f) + ")", true
+		}
+	}
+	return "", false
+}
+
+func (x *smbCtx) marshalStmts(stmts []ast.Stmt, blocksp *[]string, nested bool) {
+	blocks := *blocksp
+	defer func() { *blocksp = blocks }()
 	for i := 0; i < len(stmts); i++ {
 		st := stmts[i]
 		t := src(x.lp.fset, st)
@@ -278,6 +338,17 @@ func (x *smbCtx) marshalBody(body *ast.BlockStmt) {
 			if strings.HasPrefix(t, "if "+x.recv+".IsAndX() {") {
 				continue
 			}
+			// if <cond> { emit optional trailing fields }
+			if cond, ok := x.marshalCond(s.Cond); ok && !nested && s.Else == nil && s.Init == nil {
+				start := len(x.cmd.M)
+				*blocksp = blocks
+				x.marshalStmts(s.Body.List, blocksp, true)
+				blocks = *blocksp
+				for j := start; j < len(x.cmd.M); j++ {
+					x.cmd.M[j].Cond = cond
+				}
+				continue
+			}
 			x.opaqueM("?", st)
 		case *ast.ReturnStmt:
 			if t == "return marshalledCommand, nil" {
@@ -296,10 +367,6 @@ func (x *smbCtx) marshalBody(body *ast.BlockStmt) {
 		default:
 			x.opaqueM("?", st)
 		}
-	}
-	x.cmd.PrmFirst = len(blocks) == 2 && blocks[0] == "P" && blocks[1] == "D"
-	if !x.cmd.PrmFirst {
-		x.cmd.Opaque = append(x.cmd.Opaque, fmt.Sprintf("Marshal: output is not parameter block then data block (%v)", blocks))
 	}
 }
 
@@ -471,10 +538,15 @@ func (x *smbCtx) offsetPlus(e ast.Expr) (string, bool) {
 }
 
 func (x *smbCtx) unmarshalBody(body *ast.BlockStmt) {
-	stmts := body.List
 	x.cur = "P"
 	x.cmd.EmptyRule = "none"
 	seenReset := 0
+	x.unmarshalStmts(body.List, &seenReset, false)
+}
+
+func (x *smbCtx) unmarshalStmts(stmts []ast.Stmt, seenResetp *int, nested bool) {
+	seenReset := *seenResetp
+	defer func() { *seenResetp = seenReset }()
 	for i := 0; i < len(stmts); i++ {
 		st := stmts[i]
 		t := src(x.lp.fset, st)
@@ -521,6 +593,26 @@ func (x *smbCtx) unmarshalBody(body *ast.BlockStmt) {
 		}
 		switch s := st.(type) {
 		case *ast.IfStmt:
+			// if c.GetParameters().WordCount == K { guard; reads; advance }
+			if k, ok := x.wordCountEq(s.Cond); ok && !nested && s.Else == nil && s.Init == nil {
+				start := len(x.cmd.U)
+				x.unmarshalStmts(s.Body.List, &seenReset, true)
+				good := true
+				for j := start; j < len(x.cmd.U); j++ {
+					switch x.cmd.U[j].Kind {
+					case "guard", "int", "u8", "bytes", "rest", "adv":
+						x.cmd.U[j].Cond = "(UCWcEq " + k + ")"
+					case "opaque":
+					default:
+						good = false
+					}
+				}
+				if !good {
+					x.cmd.U = x.cmd.U[:start]
+					x.opaqueU(st)
+				}
+				continue
+			}
 			// if len(S) < offset+E { return offset, fmt.Errorf(...) }
 			if be, ok := unparen(s.Cond).(*ast.BinaryExpr); ok && be.Op == token.LSS && s.Else == nil && s.Init == nil {
 				if ce, ok := isCall(be.X, "len"); ok {
@@ -998,6 +1090,11 @@ func coqStream(s string) string {
 }
 
 func coqMop(m mop) string {
+	if m.Cond != "" && m.Kind != "opaque" {
+		c := m.Cond
+		m.Cond = ""
+		return fmt.Sprintf("MIf %s (%s)", c, coqMop(m))
+	}
 	switch m.Kind {
 	case "int":
 		return fmt.Sprintf("MInt %s %s %d %s", coqStream(m.Stream), coqStr(m.Field), m.Width, coqEndian(m.Endian))
@@ -1022,6 +1119,11 @@ func coqMop(m mop) string {
 }
 
 func coqUop(u uop) string {
+	if u.Cond != "" && u.Kind != "opaque" {
+		c := u.Cond
+		u.Cond = ""
+		return fmt.Sprintf("UIf %s (%s)", c, coqUop(u))
+	}
 	switch u.Kind {
 	case "guard":
 		return fmt.Sprintf("UGuard %s %s", coqStream(u.Stream), u.Len)
